@@ -8,6 +8,7 @@ pub mod c06;
 pub mod c07;
 pub mod c09;
 pub mod c10;
+pub mod c12;
 pub mod c13;
 pub mod c14;
 pub mod c16;
@@ -43,6 +44,10 @@ pub fn lookup(id: &str) -> Option<Prop> {
         "C10" => Prop {
             check: c10::check,
             replay: c10::replay,
+        },
+        "C12" => Prop {
+            check: c12::check,
+            replay: c12::replay,
         },
         "C13" => Prop {
             check: c13::check,
